@@ -403,22 +403,28 @@ class Let:
 
 
 class IfLet:
-    """if let Some(var) = e   (e evaluates to an Option)"""
+    """if let Some(var) = e (e evaluates to an Option) | if let Dual(var) = e (e evaluates to a Dual)"""
 
-    def __init__(self, var, e):
-        self.var, self.e = var, e
+    def __init__(self, var, e, pat='Some'):
+        self.var, self.e, self.pat = var, e, pat
 
     def rs(self, sc=None):
-        return 'if let Some(%s) = %s' % (self.var, self.e.rs(sc))
+        k = {'Some': 'Some', 'Dual': 'ascent::Dual'}[self.pat]
+        return 'if let %s(%s) = %s' % (k, self.var, self.e.rs(sc))
 
     def ren(self, m):
-        return IfLet(m.get(self.var, self.var), self.e.ren(m))
+        return IfLet(m.get(self.var, self.var), self.e.ren(m), self.pat)
 
     def binds(self):
         return [self.var]
 
     def uses(self):
         return self.e.vars()
+
+    def match(self, v):
+        if self.pat == 'Some':
+            return (v is not None, v[0] if v is not None else None)
+        return (True, v)
 
 
 class For:
